@@ -25,6 +25,22 @@ pub fn run(cfg: &RunCfg, agg: &Mutex<Agg>) {
         let p = huge_transform(&mut rng);
         transform_case_with(&mut rng, out, p, &EngineKind::fast());
     });
+    // very long shards whose block count sits on a 16-bit boundary
+    // (4 MiB = 65536 blocks): block counters, strides
+    run_cases(agg, cfg, "fft-ifft-long-shards", if cfg.thorough { 24 } else { 4 }, |cs, out| {
+        let mut rng = Rng::new(cs);
+        let size = *rng.pick(&[2usize, 2, 4, 8]);
+        let p = TransformParams {
+            inverse: rng.chance(1, 2),
+            shard_len_64: *rng.pick(&[65_535usize, 65_536, 65_536, 65_537, 131_072]),
+            shard_count: size,
+            pos: 0,
+            size,
+            truncated: size,
+            skew_delta: if rng.chance(1, 2) { 0 } else { size * rng.below(65536 / size) },
+        };
+        transform_case_with(&mut rng, out, p, &EngineKind::fast());
+    });
     // the case index fixes the multiplier: 65536 consecutive cases cover every log_m
     run_indexed(agg, cfg, "mul", crate::count(cfg, 20_000, 400_000), |i, out| {
         mul_case(&mut Rng::new(crate::util::mix(cfg.seed, i)), (i % 65536) as u16, out);
